@@ -355,6 +355,8 @@ def search(ctx, rng, budget):
         if not ok:
             hits.append(make_hit(name, args, detail, keyf(args, detail)))
 
+    # directed case: the tolerance of the recorded finding C10:approx-gaussian-exceeds-tol (refuted instance theorem)
+    run('approx_gaussian', (0.0187,), ag_key, ('ag', 'recorded'))
     for it in range(budget):
         # Polynomial vs quadrature (larger grids and degrees than the correspondence)
         a = gen_poly_args(rng, nmax=24, kmax=8)
